@@ -101,6 +101,20 @@ func init() {
 	}
 }
 
+// ... and texts in other encodings, as the bytes they are (UTF-16 and UTF-32 in both byte orders, with and without a
+// byte order mark, Latin-1): an escaper is handed bytes, it does not guess what they were meant to be
+func init() {
+	for _, t := range []string{"<b>!", "<a href='x'>&", "ab", "a", "<>", "x&y<z>\"q\"", "1234567"} {
+		var le, be, le32 string
+		for _, c := range []byte(t) {
+			le += string([]byte{c, 0})
+			be += string([]byte{0, c})
+			le32 += string([]byte{c, 0, 0, 0})
+		}
+		c13Whole = append(c13Whole, le, be, "\xff\xfe"+le, "\xfe\xff"+be, le32, "\xff\xfe\x00\x00"+le32, le+"z", "z"+le, "\xe9"+t+"\xfc\xdf")
+	}
+}
+
 // c13Conc rounds of concurrent callers: an escaper is a function of its input, whoever else is calling it (or
 // another escaper) at the same moment.
 const c13Conc = 6
